@@ -42,7 +42,7 @@ fn info(tier: Tier) -> CheckInfo {
         id: "C16",
         level: "exploration",
         rule: format!(
-            "All streams of length 0..={} over the 8-item alphabet seq in {{1,2,3,7}} x value in {{a,b}} (every permutation of every multiset: gaps, duplicates, ties), each fed through a real Dht handle's channel to both Dht::get_mutable_most_recent (sync, on a caller thread) and AsyncDht::get_mutable_most_recent (polled by the harness). Distinct = distinct (flavour, stream); every stream is non-trivial except the empty one.",
+            "All streams of length 0..={} over the 8-item alphabet seq in {{1,2,3,7}} x value in {{a,b}} (every permutation of every multiset: gaps, duplicates, ties), each fed through a real Dht handle's channel to both Dht::get_mutable_most_recent (sync, on a caller thread) and AsyncDht::get_mutable_most_recent (polled by the harness). Plus, on a real node over the simulated network (E1): every assignment of one of {{nothing, (1,a), (2,a), (2,b), (3,a)}} to each of 3 replicas in every arrival order of their answers, through the real lookup and AsyncDht::get_mutable_most_recent. Distinct = distinct (flavour, stream) / (assignment, order); every case is non-trivial except the empty ones.",
             max_len(tier)
         ),
         assumptions: vec![
@@ -193,6 +193,90 @@ fn nth_stream(mut n: usize, len: usize) -> Vec<usize> {
     s
 }
 
+/// E1 part: a real node looks the key up over 3 scripted replicas holding different versions;
+/// every assignment of a version (or nothing) to every replica in every arrival order.
+const VERSIONS: [Option<(i64, &[u8])>; 5] = [None, Some((1, b"a")), Some((2, b"a")), Some((2, b"b")), Some((3, b"a"))];
+
+fn live(assign: &[usize; 3], order: usize, out: &mut Partial) {
+    use crate::epnet::EpNet;
+    use crate::explore::Chooser;
+    use crate::sim::*;
+    let sk = signing_key(7);
+    let pk = sk.verifying_key().to_bytes();
+    let target = crate::krpc::mutable_target(&pk, None);
+    let mut w = World::new(Chooser::default_run());
+    let ids = crate::epnet::ranked_ids(&target, 3);
+    let mut net = EpNet::new(&mut w, &ids);
+    for (i, a) in assign.iter().enumerate() {
+        if let Some((seq, val)) = VERSIONS[*a] {
+            net.eps[i].mutable.insert(target, (pk, seq, val.to_vec(), crate::krpc::sign_mutable(&sk, seq, val, None).to_vec()));
+        }
+    }
+    let boots = net.addrs();
+    let a = w.add_node(NodeCfg::new([9, 9, 9, 9], 7000).bootstrap(&boots).id([0x21; 20]));
+    let h = w.now + 2 * SEC;
+    w.run_until(h, |w, ev| {
+        if let Event::EndpointRecv { ep, dgram } = ev {
+            net.handle(w, *ep, dgram);
+        }
+        false
+    });
+    let rank: Vec<usize> = {
+        let mut items = vec![0usize, 1, 2];
+        let mut k = order;
+        let mut o = vec![];
+        for i in (1..=3).rev() {
+            o.push(items.remove(k % i));
+            k /= i;
+        }
+        o
+    };
+    let call = w.call_get_mutable_most_recent(a, pk, None);
+    let h = w.now + 30 * SEC;
+    w.run_until(h, |w, ev| {
+        if let Event::EndpointRecv { ep, dgram } = ev {
+            let i = net.index_of(*ep).expect("ep");
+            if let Some(q) = crate::krpc::Krpc::parse(&dgram.bytes) {
+                if q.is_query() {
+                    if let Some(bytes) = net.honest_reply(i, &q, dgram.from, w.now) {
+                        let from = net.eps[i].addr;
+                        w.send_raw_with_latency(from, dgram.from, bytes, (10 + 40 * rank[i] as u64) * MS);
+                    }
+                }
+            }
+        }
+        w.result(call).is_some()
+    });
+    out.add("evaluations", 1);
+    out.add("distinct_nontrivial", 1);
+    out.add("live_lookups", 1);
+    let held: Vec<(i64, Vec<u8>)> = assign.iter().filter_map(|a| VERSIONS[*a].map(|(s, v)| (s, v.to_vec()))).collect();
+    let want = held.iter().map(|h| h.0).max().map(|m| (m, held.iter().filter(|h| h.0 == m).map(|h| h.1.clone()).max().expect("max")));
+    let got = match w.result(call) {
+        Some(CallResult::Mutable(r)) => r.as_ref().map(|i| (i.seq(), i.value().to_vec())),
+        other => {
+            out.violation("most-recent/live/no-result", format!("{other:?}"), json!({"part": "live", "assign": assign, "order": order}));
+            return;
+        }
+    };
+    if got.is_some() {
+        out.add("returned_some", 1);
+    }
+    if got != want {
+        let class = match (&got, &want) {
+            (None, Some(_)) => "none-although-a-replica-answered",
+            (Some(g), Some(w)) if g.0 != w.0 => "not-the-highest-seq",
+            (Some(_), Some(_)) => "tie-break-not-greatest-value",
+            _ => "some-for-nothing",
+        };
+        out.violation(
+            format!("most-recent/live/{class}"),
+            format!("replicas hold {held:?} (arrival order #{order}); get_mutable_most_recent returned {got:?}, expected {want:?}"),
+            json!({"part": "live", "assign": assign, "order": order}),
+        );
+    }
+}
+
 fn run(tier: Tier, _s: usize, _n: usize, _seed: u64) -> Partial {
     let chunks = super::cores();
     let ml = max_len(tier);
@@ -226,6 +310,13 @@ fn run(tier: Tier, _s: usize, _n: usize, _seed: u64) -> Partial {
         }
         out
     });
+    // E1 part (real node, real lookup): 5^3 assignments x 6 arrival orders, on this thread
+    for c in 0..125usize {
+        let assign = [c % 5, (c / 5) % 5, (c / 25) % 5];
+        for order in 0..6 {
+            live(&assign, order, &mut merged);
+        }
+    }
     merged.sample(json!({"flavour":"async","stream":["1a","2b","2a"],"expected":"seq 2 value b"}));
     merged.sample(json!({"flavour":"sync","stream":["3a","7a","1b"],"expected":"seq 7 value a"}));
     let some = merged.count("returned_some");
@@ -246,6 +337,14 @@ fn replay(v: &Value) -> Result<Option<Violation>, String> {
     let items = items();
     let key = *items[0].key();
     let mut out = Partial::default();
+    if v.get("part").and_then(|p| p.as_str()) == Some("live") {
+        let a: Vec<usize> = v.get("assign").and_then(|a| a.as_array()).ok_or("assign")?.iter().filter_map(|x| x.as_u64().map(|x| x as usize)).collect();
+        if a.len() != 3 {
+            return Err("assign".into());
+        }
+        live(&[a[0], a[1], a[2]], v.get("order").and_then(|o| o.as_u64()).unwrap_or(0) as usize, &mut out);
+        return Ok(out.violations.into_iter().next());
+    }
     match v.get("flavour").and_then(|f| f.as_str()) {
         Some("async") => {
             let got = run_async(&stream, &items, &key)?;
